@@ -271,7 +271,10 @@ def make_op(kind, rng, case, ref, state, n_do_fit):
         w = abs(c) * 3.0 + 1.0
         return ["limit_parameter", nm, float(np.round(c - w, 4)), float(np.round(c + w, 4))]
     if kind == "unlimit_parameter":
-        return ["unlimit_parameter", sorted(ref.limits)[int(rng.integers(0, len(ref.limits)))]] if ref.limits else None
+        if ref.limits and rng.random() < 0.8:
+            return ["unlimit_parameter", sorted(ref.limits)[int(rng.integers(0, len(ref.limits)))]]
+        # removing the limits of a parameter that has none: a no-op, for every backend
+        return ["unlimit_parameter", m.pnames[int(rng.integers(0, len(m.pnames)))]]
     if kind == "set_data":
         return gen_set_data(rng, case, ref)
     if kind == "do_fit":
